@@ -970,6 +970,10 @@ def _readUrl(  # noqa: C901
                 log.warn(e, neverraise=True)
                 decodedCssText = None
 
+        if decodedCssText and decodedCssText.startswith('\ufeff'):
+            # a BOM left over by the decoder is not part of the first rule
+            decodedCssText = decodedCssText[1:]
+
         return encoding, enctype, decodedCssText
     else:
         return None, None, None
